@@ -22,7 +22,7 @@ from . import rotation as R
 class FatalScenario:
     def __init__(self, sid, rnd, tier):
         self.id = sid
-        self.config = rnd.choice(["fluent", "fluent", "nested", "oneline"])
+        self.config = rnd.choice(["fluent", "fluent", "nested", "oneline", "wrapped", "wrapped"])
         nsinks = 1 if self.config == "oneline" else rnd.choice([1, 1, 2, 3])
         self.sinks = []
         for j in range(nsinks):
@@ -30,6 +30,9 @@ class FatalScenario:
             if self.config == "oneline":
                 kind = rnd.choice(["file", "rot"])
             s = {"kind": kind, "sub": f"s{j + 1}", "file": rnd.choice(["app.log", "fatal.log"]), "L": 0, "N": 0, "opts": 0}
+            if self.config == "wrapped":
+                # the container the sink sits in: every pipeline class can be a child of the logger, at any depth
+                s["wrap"] = rnd.choice(["plain", "plain-scoped", "sorted", "plain-in-fluent", "fluent-in-plain", "fluent"])
             if kind == "rot":
                 s["L"] = rnd.choice([60, 200, 1000, 20000])
                 s["N"] = rnd.choice([0, 3, 5])
